@@ -193,7 +193,7 @@ def run_items(items, job):
                 mode = "list"
             else:
                 try:
-                    res = PyMarkdownApi().list_path(args[0], recurse_if_directory=c["recurse"], alternate_extensions=c["ae"] or "")
+                    res = app.guarded(lambda: PyMarkdownApi().list_path(args[0], recurse_if_directory=c["recurse"], alternate_extensions=c["ae"] or ""))
                     got_paths = list(res.matching_files)
                     rc = 0
                 except PyMarkdownApiNoFilesFoundException:
